@@ -10,4 +10,4 @@ Extraction "model.ml" run_mapper mapper_source_map encode_vlq decode_vlq decode_
   lx_init next_tokens tokenize read_leading_comments base_next_token
   parse_tokens pb_run pbuilder_new pb_build apply_tok_ics register_token_type lbuilder_new
   compile cfg_compact cfg_pretty debug_to_string_stmt debug_to_string_expr run_wops wstate_init wstep
-  current_context is_in_function m_program wf_program cfg_default.
+  current_context is_in_function m_program wf_program cfg_default mapper_source_map.
